@@ -196,6 +196,32 @@ MANIFEST_TEXT["C17"] = {
     "design_ref": "DESIGN.md section 3 / C17",
 }
 
+SCENARIO_RULE = ("scenarios = generated world (1-4 flows of random graphs: cycles, self/mutual sub-flow enters, terminal enters, empty flows; every "
+                 "action type valid for the flow type; switch/random routers with/without waits, timeouts, defaults, result names; localization) "
+                 "+ environment + contact (fields, URNs, possibly stale groups, any status, ticket) + trigger (manual/msg/flow_action, batch) + "
+                 "up to 8 resumes drawn with knowledge of the current wait (msg texts aimed at the router's cases, wait_timeout, run_expiration, "
+                 "dial, optional contact/environment refresh, optional serialise-and-reload before the resume), under drawn engine limits. ")
+
+PLAN["C01"] = {
+    "pkg": "c01",
+    "tests": [
+        {"name": "TestSessionInvariants", "quick": (24000, 8), "thorough": (1600000, 16)},
+    ],
+    "budget": {"quick": 600, "thorough": 5400},
+    "rule": SCENARIO_RULE + "Oracle after every engine call that returned without Go error: the C01 validity predicate (session status, "
+            "exactly-one-waiting-run on a wait node, active runs are its ancestors, no live runs otherwise, paths are walks of the flow graph, "
+            "exited_on <=> ended, sprint events of each run name own steps and are an ordered subsequence of the sprint's events). "
+            "Non-trivial = the sprint touched >= 2 runs, or hit a wait after >= 2 new steps, or the session failed / a run expired; distinct "
+            "by (assets, trigger type, resume sequence, run statuses, sprint index).",
+    "assumptions": COMMON_ASSUMPTIONS + ["external services are deterministic in-process mocks; MaxTemplateChars >= 3 (gocommon TruncateEllipsis precondition)"],
+}
+MANIFEST_TEXT["C01"] = {
+    "technique": "property-based testing (rapid, stateful): generated flow graphs and resume histories executed through the real engine, validity predicate over the session after every sprint",
+    "level_text": "Exploration: the state-machine invariant held after every sprint of every generated scenario (live and reloaded sessions alternated).",
+    "level_note": "Trusts the public accessors (Runs, Path, Events, ParentInSession, Sprint.Events) to reflect the session state; graphs bounded to 4 flows x 6 nodes, 8 resumes.",
+    "design_ref": "DESIGN.md section 3 / C01",
+}
+
 # every property without a registered check is listed here with the reason (kept current as checks are added)
 NOT_APPLICABLE = [{"property_id": pid, "reason": "check not built yet in this round (planned in DESIGN.md); nothing is claimed for it"}
                   for pid in ALL_IDS if pid not in PLAN]
